@@ -14,6 +14,7 @@ import (
 	idp "berty.tech/go-ipfs-log/identityprovider"
 	"berty.tech/go-ipfs-log/iface"
 	"berty.tech/go-ipfs-log/internal/vx"
+	"berty.tech/go-ipfs-log/io/jsonable"
 	"github.com/ipfs/go-cid"
 	format "github.com/ipfs/go-ipld-format"
 	coreiface "github.com/ipfs/kubo/core/coreiface"
@@ -32,6 +33,10 @@ const (
 	faultAbsent = 1 // Read returns an error
 	faultDecode = 2 // Read succeeds, DecodeRawEntry returns an error
 	faultHung   = 3 // Read blocks until the context is done (only used with a timeout), then fails
+	// malformed blocks: the stored entry goes through the repository's own jsonable conversion with a field missing
+	faultNoClock = 4 // block without the clock field
+	faultNoSigs  = 5 // identity without the signatures field
+	faultBadHex  = 6 // key field that is not hex
 )
 
 type memAPI struct {
@@ -120,7 +125,7 @@ func (io *atomIO) Read(rctx context.Context, _ coreiface.CoreAPI, c cid.Cid) (fo
 	return nil, errors.New("block not found")
 }
 
-func (io *atomIO) DecodeRawEntry(node format.Node, hash cid.Cid, _ idp.Interface) (iface.IPFSLogEntry, error) {
+func (io *atomIO) DecodeRawEntry(node format.Node, hash cid.Cid, p idp.Interface) (iface.IPFSLogEntry, error) {
 	k := node.(*memNode).c.String()
 	if io.api.fault[k] == faultDecode {
 		return nil, errors.New("undecodable block")
@@ -128,6 +133,28 @@ func (io *atomIO) DecodeRawEntry(node format.Node, hash cid.Cid, _ idp.Interface
 	e, ok := io.api.entries[k]
 	if !ok {
 		return nil, errors.New("not an entry")
+	}
+	if f := io.api.fault[k]; f >= faultNoClock {
+		j, ok := jsonable.ToJsonableEntry(e).(*jsonable.EntryV2)
+		if !ok {
+			return nil, errors.New("not a v2 entry")
+		}
+		switch f {
+		case faultNoClock:
+			j.Clock = nil
+		case faultNoSigs:
+			if j.Identity != nil {
+				j.Identity.Signatures = nil
+			}
+		case faultBadHex:
+			j.Key = "zz"
+		}
+		out := &entry.Entry{}
+		if err := j.ToPlain(out, p, func() iface.IPFSLogLamportClock { return &entry.LamportClock{} }); err != nil {
+			return nil, err
+		}
+		out.SetHash(hash)
+		return out, nil
 	}
 	cp := e.Copy()
 	cp.SetHash(hash)
